@@ -25,7 +25,7 @@ def run(out, info, tier, seed):
         'theorem premise static_ok (shape facts; the ancestors table dominates every trigger path) is checked per scenario by comparing the model-built tables with the implementation, not yet discharged by a closure theorem']
     out.assumptions = ['simulators are an oracle: any reply sequence (event list); delays that are compared have equal shape (convex group scenarios)']
     sched_check.sched_property(out, info, tier, seed, 'C09', KINDS, monitors.P_C09, gen_opts={'groups': True},
-                               ncases=(160, 2000), case_gen=lambda rng, k: gen.gen_loop_case(rng) if k % 4 else gen.gen_case(rng, groups=True, loops=True), variants=[(True, True), (False, True)], nontrivial=nontrivial, features=features,
+                               ncases=(260, 2500), case_gen=lambda rng, k: gen.gen_loop_case(rng) if k % 4 else gen.gen_case(rng, groups=True, loops=True), variants=[(True, True), (False, True)], nontrivial=nontrivial, features=features,
                                known_match=None, hyp=None,
                                extra_obligations=[('Sched.Inv (invariant preserved by every event)', 'Sched/Inv'),
                                                   ('Sched.Guards / Sched.Final', 'Sched/Final')])
